@@ -2,7 +2,7 @@
 # evaluates every seed under /tmp/seed-C*/out/* that has no result yet (3 at a time)
 mkdir -p /verif/seeded/results
 ls -d /tmp/seed-C*/out/[12] 2>/dev/null | while read d; do
-  prop=$(echo "$d" | sed 's#/tmp/seed-\(C[0-9]*\)/out/.*#\1#'); n=$(basename "$d"); name="$prop-$n"
+  tag=$(echo "$d" | sed 's#/tmp/seed-\(C[0-9]*[a-z]*\)/out/.*#\1#'); prop=$(echo "$tag" | sed 's/[a-z]*$//'); n=$(basename "$d"); name="$tag-$n"
   [ -f "$d/patch.diff" ] && [ -f "$d/demo.py" ] || continue
   [ -f "/verif/seeded/results/$name.json" ] && continue
   echo "$d $prop $name"
